@@ -47,9 +47,9 @@ import (
 // and no Accept. Nothing of that is built here.
 
 type c06Op struct {
-	Data  string  `json:"data"`          // hex
-	Tag   string  `json:"tag"`           // hex, "-" = EmptyTag
-	At    string  `json:"at,omitempty"`  // "" (immediately) | "pre" | "post" | "expired" (relative to the rotation deadline) | "gap" (pause of Frac × interval)
+	Data  string  `json:"data"`           // hex
+	Tag   string  `json:"tag"`            // hex, "-" = EmptyTag
+	At    string  `json:"at,omitempty"`   // "" (immediately) | "pre" | "post" | "expired" (relative to the rotation deadline) | "gap" (pause of Frac × interval)
 	Frac  float64 `json:"frac,omitempty"` // position inside the chosen span
 	Clear bool    `json:"clear,omitempty"`
 }
@@ -544,7 +544,7 @@ func init() {
 			for i := 0; i < c.N(36, 240); i++ {
 				cap := 2 + c.Rand.Intn(4)
 				x := []byte{0xee, byte(i), byte(i >> 8)}
-				nOthers := c.Rand.Intn(cap) // < cap distinct others
+				nOthers := c.Rand.Intn(cap)                          // < cap distinct others
 				total := 0.15 + 0.63*float64(c.Rand.Intn(1000))/1000 // whole pause as a fraction of the interval, ≤ 0.78 (234 of 300 ms)
 				if i%3 == 0 {
 					nOthers, total = 0, 0.70+0.08*float64(c.Rand.Intn(1000))/1000 // the longest allowed pause, nothing in between
